@@ -769,7 +769,7 @@ def _par_worker(job):
     for k, (name, funcs, args) in enumerate(progs):
         if k % nworkers != w:
             continue
-        if time.time() - t0 > budget:
+        if time.time() - t0 > budget and cnt['par-programs'] >= 3:     # a minimum that does not depend on the load
             cnt['par-incomplete'] += 1
             break
         args_list = [args, _second(args)]
